@@ -189,6 +189,20 @@ def library_nestings(r, n):
             if op[0] in ("imported", "avail", "cyclesin", "cycles", "goto", "mismatch", "unused", "undeclared", "refs"):
                 st.runs.append("probe " + " ".join(op))
         scs.append(st)
+        # … and with a module ON DISK that nothing has analysed yet (an import added after start-up, or met before
+        # the scan reached the module): queries walk the import, whatever they do about the module they find there
+        su = conc.Scenario("p%du" % i)
+        su.texts, su.disk = dict(sc.texts), list(sc.disk)
+        helper = su.text(gen_version(r.rng, False))
+        su.disk.append(("sub/helpers.py", helper))
+        conf2 = su.text("from .helpers import *\n" + files["sub/conftest.py"])
+        su.setup = [list(o) for o in sc.setup] + [["analyze", "sub/conftest.py", conf2]]
+        su.threads = {1: [["cycles"]]}
+        for op in probe_ops({q: files[q] for q in ("sub/conftest.py", "sub/test_b.py")}, dict(tid, **{"sub/conftest.py": conf2})):
+            if op[0] in ("imported", "avail", "cyclesin", "goto", "mismatch", "undeclared", "ctx", "defat"):
+                su.runs.append("probe " + " ".join(op))
+        su.runs += ["probe refs " + n for n in NAMES] + ["probe cycles", "probe unused"]
+        scs.append(su)
     res, rc, dt = conc.run_scenarios(scs, tag="c12p")
     if rc != 0:
         r.broken.append("concurrency harness exited with status %s while probing single operations" % rc)
